@@ -49,6 +49,14 @@ func indexObject(p *lang.Process, params []string) error {
 		i++
 	})
 
+	if err == nil && !p.IsNot {
+		for num := range lines {
+			if num >= i {
+				return fmt.Errorf("key '%d' greater than number of items in array", num)
+			}
+		}
+	}
+
 	return err
 }
 
